@@ -99,6 +99,8 @@ Judge(e) ==
     ELSE (IF StableClause(e.pre, e.post) # "ok" THEN V("C10.StableBits", StableClause(e.pre, e.post)) ELSE None)
       \o (CASE e.action \in Mutators -> JudgeMutator(e)
             [] e.action = "Sort" -> JudgeSort(e)
+            \* queries and copies on a well-formed namespace with member arguments never raise
+            [] e.action \in {"QMask", "QLookup", "Copy"} /\ e.raised # "" -> V("C10.QueryRaised", e.raised)
             [] e.action = "QMask" -> JudgeQMask(e)
             [] e.action = "QLookup" -> JudgeQLookup(e)
             [] e.action = "Copy" -> JudgeCopy(e))
